@@ -314,6 +314,7 @@ func main() {
 			"a write larger than M is rejected even if the kernel could take part of it (the threshold test precedes the write), as the statement's 'would exceed'",
 			"while calls are issued the peer does not read, so the backlog observed under the mutex before a call is the backlog at its threshold test",
 		},
-		Build: build, QuickBudget: 40 * time.Second, ThoroughBudget: 10 * time.Minute, MinNonTrivial: 30,
+		UsesSimulatedKernel: true,
+		Build:               build, QuickBudget: 40 * time.Second, ThoroughBudget: 10 * time.Minute, MinNonTrivial: 30,
 	})
 }
